@@ -116,9 +116,12 @@ type SolverStats struct {
 var gStats SolverStats
 
 type queryCacheT struct {
-	mu sync.Mutex
-	m  map[string]string
+	mu    sync.Mutex
+	m     map[string]string
+	bytes int // total key bytes; the cache is emptied when it passes cacheLimitBytes
 }
+
+const cacheLimitBytes = 400 << 20
 
 var queryCache = &queryCacheT{m: map[string]string{}}
 
@@ -723,7 +726,12 @@ func (s *Solver) solve(asserts []Term, syms []string) (string, map[string]string
 	}
 	if key != "" && (res == "sat" || res == "unsat") {
 		queryCache.mu.Lock()
+		if queryCache.bytes > cacheLimitBytes {
+			queryCache.m = map[string]string{}
+			queryCache.bytes = 0
+		}
 		queryCache.m[key] = res
+		queryCache.bytes += len(key)
 		queryCache.mu.Unlock()
 	}
 	if gCfg.DumpDir != "" && (ms > int64(gCfg.DumpMs) || (res != "sat" && res != "unsat")) {
